@@ -110,6 +110,8 @@ class Sched:
         self.current: TState | None = None
         self.points: list = []
         self.labels: list = []
+        self.solo_steps = 0
+        self.livelock_after = 30000  # consecutive scheduling points with a single runnable thread
         self.active = None  # code objects whose instruction events are scheduling points in this execution (None = all registered)
         self.obs: list = []
         self.state_digests: list = []
@@ -188,7 +190,15 @@ class Sched:
             self._wake_all()
             return None
         if len(options) == 1:
+            # no choice here; but only-one-runnable-thread-forever is a livelock (a poller spinning while everybody else waits for it)
+            self.solo_steps += 1
+            if self.solo_steps > self.livelock_after:
+                self.failure = ("livelock", [(t.name, "done" if t.done else ("blocked" if t.blocked_on is not None else "running"), t.last) for t in self.threads])
+                self.abort = True
+                self._wake_all()
+                return None
             return options[0]
+        self.solo_steps = 0
         i = len(self.points)
         if i >= self.horizon:
             self.failure = ("horizon", i)
